@@ -501,7 +501,7 @@ fn place_j<'tcx>(tcx: TyCtxt<'tcx>, body: &Body<'tcx>, p: &Place<'tcx>) -> J {
                     }
                     _ => {}
                 }
-                proj.push(J::obj(vec![("f", J::Num(f.as_usize() as i128)), ("n", J::s(&name))]));
+                proj.push(J::obj(vec![("f", J::Num(f.as_usize() as i128)), ("n", J::s(&name)), ("bt", J::s(&cur_ty.ty.to_string()))]));
             }
             ProjectionElem::Downcast(sym, vi) => {
                 let n = sym.map(|s| s.to_string()).unwrap_or_else(|| format!("{}", vi.as_usize()));
